@@ -89,8 +89,21 @@ def replay(recs):
                 T = np.array([[1, 0, 600], [0, 1, -400], [0, 0, 1]])
                 Ti = np.array([[1, 0, -600], [0, 1, 400], [0, 0, 1]])
                 exp0 = exp
+                def as_circle(M):
+                    """the conic as an object of class Circle: the image of the unit circle under a projective map (a transformed
+                    object keeps its class); conics without real points and degenerate ones stay plain Conic objects"""
+                    M = np.asarray(M, dtype=float)
+                    lam, V = np.linalg.eigh(M)
+                    if np.sum(lam > 0) == 1:
+                        lam, M = -lam[::-1], -M
+                        V = V[:, ::-1]
+                    if not (np.sum(lam > 1e-9) == 2 and np.sum(lam < -1e-9) == 1):
+                        return g.Conic(M)
+                    Tinv = np.diag(np.sqrt(np.abs(lam))) @ V.T              # M = Tinv^T diag(1, 1, -1) Tinv, eigenvalues ascending: (-, +, +)
+                    Pm = np.array([[0, 1, 0], [0, 0, 1], [1, 0, 0]], dtype=float)  # move the negative direction last
+                    return g.Transformation(np.linalg.inv(Pm @ Tinv)) * g.Circle(g.Point(0, 0), 1)
                 for name, A, B in (("", c1, c2), ("/swapped", c2, c1), ("/scaled-matrices", c1 * -2, c2 * 0.5),
-                                   ("/far-from-origin", Ti.T @ c1 @ Ti, Ti.T @ c2 @ Ti)):
+                                   ("/far-from-origin", Ti.T @ c1 @ Ti, Ti.T @ c2 @ Ti), ("/circles-under-a-projective-map", c1, c2)):
                     if name == "/swapped" and np.linalg.matrix_rank(B) < 3:
                         continue        # the property's "two conics in general position": keep the non-degenerate one first
                     exp = [T @ e for e in exp0] if name == "/far-from-origin" else exp0
@@ -115,7 +128,13 @@ def replay(recs):
                                         # on the unchanged library): numerics, not claimed; only the classification above is checked
                     try:
                         with np.errstate(all="ignore"):
-                            res = g.Conic(A).intersect(g.Conic(B))
+                            if name == "/circles-under-a-projective-map":
+                                oa, ob = as_circle(A), as_circle(B)
+                                if not (same_class(np.asarray(oa.array).reshape(-1), A.reshape(-1), 1e-7) and same_class(np.asarray(ob.array).reshape(-1), B.reshape(-1), 1e-7)):
+                                    raise MachineryError("the projective image of the unit circle is not the requested conic")
+                                res = oa.intersect(ob)
+                            else:
+                                res = g.Conic(A).intersect(g.Conic(B))
                         got = [np.asarray(p.array, dtype=complex) for p in res]
                         bad = None
                         if len(got) > 4:
